@@ -115,7 +115,59 @@ def run(prog, rep):
                 rep.ob("C09.1", fn, site + ":wouldblock", False,
                        "blocking socket: after %s reports EAGAIN/EWOULDBLOCK a path %s at line %d instead of waiting and re-issuing the call "
                        "(the internal would-block condition is reported to the caller)" % (name, e[0], e[1]), c, e[2])
-    rep.floor("C09.1", 12, "7 EINTR sites + 5 would-block sites")
+    # the wait's verdict is obeyed: in the I/O operations a condition wait that returned TRUE is followed by the native call it
+    # waited for, one that returned FALSE (timed out, closed, failed) by a failure return without the call - from each wait call,
+    # flow under `wait == 1` resp. `wait == 0` until the native call, a return or the next evaluation of the wait
+    nwv = 0
+    for fn in u.roots():
+        if fn.name == WAIT:
+            continue
+        natives = [c for (b, i, c) in fn.calls() if c.get("callee") in IO_NATIVES or c.get("callee") == "connect"]
+        for (wb, wi, wc) in [(b, i, c) for (b, i, c) in fn.calls() if c.get("callee") == WAIT]:
+            if not natives:
+                continue
+            later = [c for c in natives if any(c is c2 for (b2, i2, c2) in fn.calls() if b2.id in fn.reach_from([wb.id]))]
+            if not later or fn.name in ("p_socket_connect",):
+                continue          # connect waits *after* its native call (completion), judged by C09.6
+            wk = guards.key(wc)
+            for verdict in (1, 0):
+                outcome = []
+
+                def ws(st, b, i, stmt, outcome=outcome):
+                    facts, started = st
+                    if not started:
+                        if any(c is wc for c in calls(stmt)):
+                            f2 = guards.add_fact(guards.transfer(facts, stmt), wk, "==", verdict)
+                            return [(f2, True)] if f2 is not None else []
+                        return [(guards.transfer(facts, stmt), False)]
+                    for c in calls(stmt):
+                        if c is wc:
+                            return []
+                        if any(c is n_ for n_ in natives):
+                            outcome.append(("native", line(c)))
+                            return []
+                    if stmt["k"] == "ret":
+                        outcome.append(("return", line(stmt)))
+                        return []
+                    keep = frozenset(f for f in facts if f[0] == wk)
+                    return [(frozenset(guards.transfer(facts, stmt) | keep), True)]
+
+                def we(st, b, to, on):
+                    f2 = guards.edge_assume(st[0], b, on)
+                    return None if f2 is None else (f2, st[1])
+                Flow(fn, [(guards.EMPTY, False)], ws, we, max_states=40000).run()
+                kinds = set(k for (k, ln_) in outcome)
+                want = "native" if verdict == 1 else "return"
+                okw = kinds == {want}
+                nwv += 1
+                rep.ob("C09.1", fn, "wait#%d:verdict=%d" % (line(wc), verdict), okw,
+                       ("a wait that succeeded is followed by the native call" if verdict else "a wait that failed is followed by a failure return, not by the native call") if okw else
+                       ("line %d: after the condition wait returned %s a path %s: %s" % (
+                           [ln_ for (k, ln_) in outcome if k != want][0] if [1 for (k, ln_) in outcome if k != want] else line(wc), "TRUE" if verdict else "FALSE",
+                           "returns without issuing the call" if verdict else "goes on to the native call",
+                           "a blocking operation fails although its data is ready" if verdict else "a timed-out or refused wait is ignored and the call sleeps in the kernel or fails with a would-block error")
+                        if outcome else "nothing is reached after the wait"), wc)
+    rep.floor("C09.1", 12 + 8, "7 EINTR sites + 5 would-block sites + wait verdicts")
 
     # C09.2 byte accounting
     for fname, native, bufi, leni in (("p_socket_receive", "recv", 1, 2),
@@ -377,6 +429,9 @@ def run(prog, rep):
 RENAME_LOCALS = ['src/psocket.c']
 
 SELFTEST = [
+    dict(id="receive-from-wait-polarity", file="src/psocket.c", expect="C09.1",
+         old="\t\t\t\t\t\tP_SOCKET_IO_CONDITION_POLLIN,\n\t\t\t\t\t\terror) == FALSE)\n\t\t\treturn -1;\n\n\t\tif ((ret = recvfrom",
+         new="\t\t\t\t\t\tP_SOCKET_IO_CONDITION_POLLIN,\n\t\t\t\t\t\terror) == TRUE)\n\t\t\treturn -1;\n\n\t\tif ((ret = recvfrom"),
     dict(id="accept-wouldblock-dropped", file="src/psocket.c", expect="C09.1",
          old="\t\t\tsock_err = p_error_get_io_from_system (err_code);\n\n\t\t\tif (socket->blocking && sock_err == P_ERROR_IO_WOULD_BLOCK)\n\t\t\t\tcontinue;\n\n\t\t\tp_error_set_error_p (error,\n\t\t\t\t\t     (pint) sock_err,\n\t\t\t\t\t     err_code,\n\t\t\t\t\t     \"Failed to call accept() on socket\");",
          new="\t\t\tsock_err = p_error_get_io_from_system (err_code);\n\n\t\t\tp_error_set_error_p (error,\n\t\t\t\t\t     (pint) sock_err,\n\t\t\t\t\t     err_code,\n\t\t\t\t\t     \"Failed to call accept() on socket\");"),
